@@ -47,6 +47,17 @@ theorem signRepo_ok (C : CryptoFns) (top : List (PStr × J)) (keyHex : PStr) (hk
 theorem signRepo_other_fields (top : List (PStr × J)) (x : J) (k : PStr) (hk : k ≠ ps! "signatures") :
     dictGet k (dictSet top (ps! "signatures") x) = dictGet k top := dictGet_dictSet_other _ _ _ hk _
 
+/-- **only the two artifact sections decide what is signed**: two documents with the same `packages` and `packages.conda` members — whatever else they hold
+at top level (members named like sections, stale signatures, lists of removed artifacts, …) — get the same signatures section -/
+theorem other_members_do_not_matter (C : CryptoFns) (top top' : List (PStr × J)) (keyHex : PStr) (hk : HexN 64 (.str keyHex)) (arts arts2 : List (PStr × J))
+    (h1 : dictGet (ps! "packages") top = some (.obj arts)) (h1' : dictGet (ps! "packages") top' = some (.obj arts))
+    (h2 : dictGet (ps! "packages.conda") top = some (.obj arts2) ∨ (dictGet (ps! "packages.conda") top = none ∧ arts2 = []))
+    (h2' : dictGet (ps! "packages.conda") top' = some (.obj arts2) ∨ (dictGet (ps! "packages.conda") top' = none ∧ arts2 = [])) :
+    ∃ r r', signRepodataJ C (.obj top) (.str keyHex) = .ok (.obj r) ∧ signRepodataJ C (.obj top') (.str keyHex) = .ok (.obj r') ∧
+      dictGet (ps! "signatures") r = some (.obj (sigSection C (unhex keyHex) arts arts2)) ∧
+      dictGet (ps! "signatures") r' = some (.obj (sigSection C (unhex keyHex) arts arts2)) :=
+  ⟨_, _, signRepo_ok C top keyHex hk arts arts2 h1 h2, signRepo_ok C top' keyHex hk arts arts2 h1' h2', dictGet_dictSet_same _ _ _, dictGet_dictSet_same _ _ _⟩
+
 theorem fold_keys (C : CryptoFns) (seed : Bytes) : ∀ (arts sigs : List (PStr × J)) (k : PStr),
     k ∈ (arts.foldl (fun s a => dictSet s a.1 (artifactEntry C seed a.2)) sigs).map (·.1) ↔ k ∈ sigs.map (·.1) ∨ k ∈ arts.map (·.1)
   | [], sigs, k => by simp
